@@ -59,6 +59,7 @@ Fixpoint make_json_loop (tc : tagcase) (G S : bool) (ms : list gs_method) (field
   | [] => a
   | f :: r =>
       if f_shadowed f || f_embedded f then make_json_loop tc G S ms r a
+      else if String.eqb (f_jsontag f) "-" then make_json_loop tc G S ms r a   (* encoding/json ignores the field *)
       else
         let exp := is_exported (f_name f) in
         let gt := field_has_getter G ms f in
@@ -107,6 +108,15 @@ Definition json_key (jd : json_data) (f : ident) : string :=
   if String.eqb (tag_key t) "" then to_pascal_case f else tag_key t.
 Definition json_dropped (jd : json_data) (f : ident) : bool := String.eqb (assoc_s f (jd_tags jd)) "-".
 
+(* the option omitempty: the member is left out when the value is the zero value of its type *)
+Definition tag_options (tag : string) : list string := tl (split_c ","%char tag).
+Definition tag_omitempty (tag : string) : bool := existsb (String.eqb "omitempty") (tag_options tag).
+Definition is_vzero (y : val) : bool := match y with VZero => true | _ => false end.
+Definition json_omitted (jd : json_data) (f : ident) (y : val) : bool :=
+  tag_omitempty (assoc_s f (jd_tags jd)) && is_vzero y.
+Definition json_kept (jd : json_data) (p : ident * val) : bool :=
+  negb (json_dropped jd (fst p)) && negb (json_omitted jd (fst p) (snd p)).
+
 Definition mem_str (x : string) (l : list string) : bool := existsb (String.eqb x) l.
 
 (* the value MarshalJSON puts into the shadow-struct field of f: the getter's result, the exported field
@@ -128,7 +138,7 @@ Fixpoint marshal_fields (pkg : pkg_spec) (v : view) (fuel : nat) (sd : sdecl) (j
 (* MarshalJSON: the shadow struct filled in, as the JSON object json.Marshal makes of it (member order = JSONList) *)
 Definition marshal (pkg : pkg_spec) (v : view) (fuel : nat) (sd : sdecl) (jd : json_data) (x : val) : res (list (string * val)) :=
   bind (marshal_fields pkg v fuel sd jd x (jd_list jd)) (fun fy =>
-    Ok (map (fun p : ident * val => (json_key jd (fst p), snd p)) (filter (fun p : ident * val => negb (json_dropped jd (fst p))) fy))).
+    Ok (map (fun p : ident * val => (json_key jd (fst p), snd p)) (filter (json_kept jd) fy))).
 
 (* the shadow struct after json.Unmarshal(data, &x): each field holds the member of its key, else zero *)
 Definition shadow_value (jd : json_data) (kv : list (string * val)) (f : ident) : val :=
@@ -156,23 +166,44 @@ Definition unmarshal (pkg : pkg_spec) (v : view) (fuel : nat) (sd : sdecl) (jd :
   bind (unmarshal_setters pkg v fuel sd jd kv (jd_setters jd) w) (unmarshal_exported pkg fuel sd jd kv (jd_exported jd)).
 
 (* ------------------------------------------------ the declarative key table *)
-(* the explicit json tag of a field of the struct itself (tags exist on those only) *)
+(* the explicit json tag of a field declaration *)
 Definition decl_json_tag (fd : fdecl) : string :=
   match fd_tag fd with Some t => parse_json_tag t | None => "" end.
 
-Definition spec_tag (sd : sdecl) (p : path) : string :=
-  match p with
-  | [n] => match top_decl sd p with
-           | Some fd => match fd_names fd with [] => "" | _ => decl_json_tag fd end
-           | None => ""
-           end
-  | _ => ""
+Definition tag_in_decls (sd' : sdecl) (n : ident) : string :=
+  match find (decl_has_name n) (sd_fields sd') with
+  | Some fd => match fd_names fd with [] => "" | _ => decl_json_tag fd end
+  | None => ""
   end.
 
-(* the member name the property text gives the field at leaf path p: the explicit tag, else the transformed name *)
-Definition spec_key_tag (fl : ctor_flags) (sd : sdecl) (p : path) : string :=
-  let t := if fl_json fl then spec_tag sd p else "" in
+(* the struct that declares the leaf at path p: T itself for a field of T, else the struct of the embedded
+   occurrence the leaf hangs under *)
+Definition declaring_struct (pkg : pkg_spec) (fuel : nat) (sd : sdecl) (p : path) : option sdecl :=
+  match p with
+  | [] => None
+  | [_] => Some sd
+  | _ => match find_occ (removelast p) (all_occ pkg fuel (self_inst sd)) with
+         | Some o => if occ_emb o then option_map fst (struct_of pkg (occ_ty o)) else None
+         | None => None
+         end
+  end.
+
+(* the explicit json tag the DECLARATION of the leaf at path p carries (in whatever struct declares it) *)
+Definition spec_tag (pkg : pkg_spec) (fuel : nat) (sd : sdecl) (p : path) : string :=
+  match declaring_struct pkg fuel sd p with
+  | Some sd' => tag_in_decls sd' (last p "")
+  | None => ""
+  end.
+
+(* the tag text the property gives the field at leaf path p: the explicit tag, else the transformed name *)
+Definition spec_key_tag (pkg : pkg_spec) (fl : ctor_flags) (fuel : nat) (sd : sdecl) (p : path) : string :=
+  let t := if fl_json fl then spec_tag pkg fuel sd p else "" in
   if String.eqb t "" then tag_trans (fl_tagcase fl) (last p "") else t.
+
+(* ... and the member name encoding/json derives from it *)
+Definition spec_member (pkg : pkg_spec) (fl : ctor_flags) (fuel : nat) (sd : sdecl) (p : path) : string :=
+  let t := spec_key_tag pkg fl fuel sd p in
+  if String.eqb (tag_key t) "" then to_pascal_case (last p "") else tag_key t.
 
 (* ------------------------------------------------------------------ guards *)
 (* exported fields keep their name under Pascal-casing.  No longer part of the guard: the template used to name the
@@ -191,16 +222,16 @@ Definition no_promoted_json_tags (pkg : pkg_spec) (fuel : nat) (sd : sdecl) : bo
                                       | None => true end
                     else true) (all_occ pkg fuel (self_inst sd)).
 
-(* explicit tags are plain member names: non-empty, no comma (options), not "-" *)
-Definition plain_tag (t : string) : bool :=
-  String.eqb t "" || (negb (String.eqb t "-") && negb (existsb (fun c => Ascii.eqb c ","%char) (list_of_string t))).
+(* explicit tags carry no option other than omitempty (`string` re-encodes the value: not modelled) *)
+Definition plain_tag (t : string) : bool := forallb (String.eqb "omitempty") (tag_options t).
 Definition plain_json_tags (sd : sdecl) : bool := forallb (fun fd => plain_tag (decl_json_tag fd)) (sd_fields sd).
 
 (* the member names are non-empty and pairwise distinct even under case folding (encoding/json matches keys
-   case-insensitively and drops fields whose names collide) *)
+   case-insensitively and drops fields whose names collide), and no listed field's tag text is "-" *)
 Definition json_keys_ok (jd : json_data) : bool :=
   let ks := map (fun f => lower (json_key jd f)) (jd_list jd) in
-  nodup_str ks && forallb (fun k => negb (String.eqb k "")) ks.
+  nodup_str ks && forallb (fun k => negb (String.eqb k "")) ks &&
+  forallb (fun f => negb (json_dropped jd f)) (jd_list jd).
 
 Definition c11_guard (pkg : pkg_spec) (fl : ctor_flags) (fuel : nat) (sd : sdecl) : bool :=
   c03_guard pkg fl fuel sd && no_promoted_json_tags pkg fuel sd && plain_json_tags sd.
@@ -226,5 +257,4 @@ Definition json_aligned (pkg : pkg_spec) (v : view) (fuel : nat) (sd : sdecl) (j
   forallb (fun f => negb (mem_str f (jd_exported jd))) (jd_getters jd) &&
   forallb (fun f => negb (mem_str f (jd_exported jd))) (jd_setters jd) &&
   forallb (fun f => mem_str f (jd_list jd)) (jd_getters jd ++ jd_setters jd ++ jd_exported jd)%list &&
-  nodup_str (jd_setters jd ++ jd_exported jd)%list &&
-  forallb (fun f => negb (json_dropped jd f)) (jd_list jd).
+  nodup_str (jd_setters jd ++ jd_exported jd)%list.
